@@ -12,6 +12,9 @@
 //	inst <instances> <total> <tables> <reqs> <scens>  provider + several guns concurrently; rows seen per scenario
 //	iter <goroutines> <per> <len> <rounds>            real mp.NextIterator / GetMapValue from several goroutines;
 //	                                                  <rounds> start-ups per arena with simultaneous first calls
+//	path <tree> <draws|-> <hexpath>[,<hexpath>...]    real mp.GetMapValue on a variable tree (grammar: internal/a15/tree.go),
+//	                                                  the listed paths one after the other on ONE real NextIterator
+//	                                                  (iter.Rand answers the listed draws); one result per path
 package main
 
 import (
@@ -562,9 +565,56 @@ func startupRounds(rounds int) bool {
 	return bad == 0
 }
 
+// scriptIter: the real NextIterator for Next, scripted draws for Rand (Iterator is an interface).
+type scriptIter struct {
+	real  *mp.NextIterator
+	draws []int
+}
+
+func (s *scriptIter) Next(segment string) int { return s.real.Next(segment) }
+func (s *scriptIter) Rand(length int) int {
+	if len(s.draws) == 0 {
+		panic("no draw left")
+	}
+	d := s.draws[0]
+	s.draws = s.draws[1:]
+	return d
+}
+
+func runPath(f []string) string {
+	tree := a15.ParseTree(f[1])
+	it := &scriptIter{real: mp.NewNextIterator(1)}
+	if f[2] != "-" {
+		for _, d := range strings.Split(f[2], ",") {
+			n, _ := strconv.Atoi(d)
+			it.draws = append(it.draws, n)
+		}
+	}
+	var out []string
+	for _, hp := range strings.Split(f[3], ",") {
+		path := string(vh.UnHex(hp))
+		res := func() (res string) {
+			defer func() {
+				if r := recover(); r != nil {
+					res = "panic"
+				}
+			}()
+			v, err := mp.GetMapValue(tree, path, it)
+			if err != nil {
+				return "err"
+			}
+			return "v:" + a15.PrintVal(v)
+		}()
+		out = append(out, res)
+	}
+	return strings.Join(out, " ")
+}
+
 func runCase(c string) string {
 	f := strings.Split(c, " ")
 	switch f[0] {
+	case "path":
+		return runPath(f)
 	case "parse":
 		name, cnt, sl, err := sconfig.ParseShootName(string(vh.UnHex(f[1])))
 		if err != nil {
